@@ -29,3 +29,42 @@ pub fn client_config() -> ClientConfig {
     roots.add(i.cert.clone()).unwrap();
     ClientConfig::with_root_certificates(Arc::new(roots)).expect("client config")
 }
+
+// ---- C17: configurations whose session state outlives one connection --------------------------
+
+/// A client crypto configuration with its own resumption store; using the same object for two
+/// consecutive connections lets the second one attempt 0-RTT
+pub fn client_crypto() -> Arc<dyn quinn_proto::crypto::ClientConfig> {
+    let i = ident();
+    let mut roots = rustls::RootCertStore::empty();
+    roots.add(i.cert.clone()).unwrap();
+    let mut cfg = rustls::ClientConfig::builder_with_provider(Arc::new(rustls::crypto::ring::default_provider()))
+        .with_protocol_versions(&[&rustls::version::TLS13])
+        .unwrap()
+        .with_root_certificates(roots)
+        .with_no_client_auth();
+    cfg.enable_early_data = true;
+    Arc::new(quinn_proto::crypto::rustls::QuicClientConfig::try_from(cfg).expect("quic client config"))
+}
+
+pub type ServerSessions = Arc<dyn rustls::server::StoresServerSessions>;
+
+pub fn server_sessions() -> ServerSessions {
+    rustls::server::ServerSessionMemoryCache::new(64)
+}
+
+/// A server crypto configuration resuming sessions from `sessions`; `accept_early` selects
+/// `max_early_data_size` u32::MAX (accept 0-RTT) or 0 (reject it)
+pub fn server_crypto(accept_early: bool, sessions: ServerSessions) -> Arc<dyn quinn_proto::crypto::ServerConfig> {
+    let i = ident();
+    let key = PrivateKeyDer::Pkcs8(PrivatePkcs8KeyDer::from(i.key.clone()));
+    let mut cfg = rustls::ServerConfig::builder_with_provider(Arc::new(rustls::crypto::ring::default_provider()))
+        .with_protocol_versions(&[&rustls::version::TLS13])
+        .unwrap()
+        .with_no_client_auth()
+        .with_single_cert(vec![i.cert.clone()], key)
+        .expect("server cert");
+    cfg.max_early_data_size = if accept_early { u32::MAX } else { 0 };
+    cfg.session_storage = sessions;
+    Arc::new(quinn_proto::crypto::rustls::QuicServerConfig::try_from(cfg).expect("quic server config"))
+}
